@@ -13,6 +13,15 @@ MAX_INLINE_DEPTH = 12
 MAX_PATHS = int(__import__('os').environ.get('PYVC_MAX_PATHS', '6000'))
 
 LIST_LEN = ('$list', 'len', 0)
+LIST_ETYPE = ('$list', 'etype', 0)
+_ETYPE_IDS = {}
+
+
+def etype_id(elem):
+    k = type_str(elem)
+    if k not in _ETYPE_IDS:
+        _ETYPE_IDS[k] = len(_ETYPE_IDS) + 1
+    return _ETYPE_IDS[k]
 OBJ_CLS = ('$obj', 'cls', 0)
 
 
@@ -143,12 +152,25 @@ class Engine:
         return out
 
     # ------------------------------------------------------------------ heap
+    def base_array(self, gen, key, sort):
+        name = 'H%d.%s.%s.%s' % (gen, key[0] if isinstance(key[0], str) else '_'.join(key[0]), key[1], key[2])
+        return z3.Const(name, z3.ArraySort(IntS, sort))
+
     def harr(self, st, key, sort):
         a = st.heap.get(key)
         if a is None:
-            name = 'H%d.%s.%s.%s' % (st.hgen, key[0] if isinstance(key[0], str) else '_'.join(key[0]), key[1], key[2])
-            a = z3.Const(name, z3.ArraySort(IntS, sort))
+            a = self.base_array(st.hgen, key, sort)
             st.heap[key] = a
+            # a generation created by an ownership-respecting havoc agrees with its parent below the bound
+            g = st.hgen
+            cur = a
+            while g in st.hgen_parent:
+                pg, bound = st.hgen_parent[g]
+                pa = self.base_array(pg, key, sort)
+                r = fresh_int('fr')
+                st.assume(z3.ForAll([r], z3.Implies(r < bound, z3.Select(cur, r) == z3.Select(pa, r))))
+                cur = pa
+                g = pg
         return a
 
     def hset(self, st, key, arr):
@@ -227,10 +249,15 @@ class Engine:
         r = st.alloc
         st.alloc = simp(st.alloc + 1)
         l = VList(elem, r)
+        self.tag_list(st, l)
         self.list_set_len(st, l, z3.IntVal(len(items)))
         for i, it in enumerate(items):
             self.list_set(st, l, z3.IntVal(i), it, node)
         return l
+
+    def tag_list(self, st, l):
+        "well-typed heap: a list object holds elements of one declared type"
+        self.hset(st, LIST_ETYPE, z3.Store(self.harr(st, LIST_ETYPE, IntS), l.t, z3.IntVal(etype_id(l.elem))))
 
     def fresh_list_contents(self, st, l):
         "havoc the contents (length and items) of list l"
@@ -305,7 +332,8 @@ class Engine:
         elif k == 'rec' and isinstance(v, VRec):
             st.assume(IMPL(guard, AND(v.t >= 1, v.t < st.alloc)))
         elif k == 'list' and isinstance(v, VList):
-            st.assume(IMPL(guard, AND(v.t >= 1, v.t < st.alloc, self.list_len(st, v) >= 0)))
+            st.assume(IMPL(guard, AND(v.t >= 1, v.t < st.alloc, self.list_len(st, v) >= 0,
+                                      z3.Select(self.harr(st, LIST_ETYPE, IntS), v.t) == etype_id(v.elem))))
         elif k == 'tuple' and isinstance(v, VTuple):
             for a, t in zip(v.items, T[1]):
                 self.assume_type(st, t, a, guard)
